@@ -23,6 +23,7 @@ D0_radius   2   0.0037559   0
 FastCoherentSum::UseCartesian 1
 D0{a(1)(1260)+{rho(770)0{pi+,pi-},pi+},K-}   0 0.813449 0.00586375   0 -2.60325 0.00790284
 D0{a(1)(1260)+[D]{rho(770)0{pi+,pi-},pi+},K-}   0 0.5 0.01   2 0.25 0
+D0::radius   2   0.0041   0
 """,
     "fC": """EventType D0 K- pi+ pi+ pi-
 FastCoherentSum::UseCartesian 0
